@@ -3,7 +3,7 @@
   (hypotheses discharged by `tab3_sem` / `tab2_sem`, i.e. by the table obligations of C16Tie*), and
   non-vacuity examples.
 -/
-import OnsagerProofs.C17
+import OnsagerProofs.C17Sound
 import OnsagerProofs.C16Tie
 
 namespace Onsager.C16
@@ -20,6 +20,34 @@ theorem rotate_tab2 {M : Type} [Ring M] [Algebra ℚ M] (N : Nat → Nat → Lis
     (hN : RowsOK tab2 N Q x) (a : Coeffs M) (ha : ParityOK tab2 a) :
     evalH tab2 x (rotatecoeff tab2 N a) = evalH tab2 (applyQ Q x) a :=
   eval_rotate_of_rows tab2 tab2_sem.phi_mono N Q x hN a ha
+
+theorem tab3_sem17 : tab3.Sem17 :=
+  sem17_of_checks tab3 tab3_sizes tab3_graded tab3_dmult tab3_pcoef_formula tab3_pcoef_powers
+
+theorem tab2_sem17 : tab2.Sem17 :=
+  sem17_of_checks tab2 tab2_sizes tab2_graded tab2_dmult tab2_pcoef_formula tab2_pcoef_powers
+
+theorem tab3_dim : tab3.dim = 3 := by decide +kernel
+theorem tab2_dim : tab2.dim = 2 := by decide +kernel
+
+/-- **rotation = substitution on the live 3-D tables**, no side condition: any 3×3 matrix `Q`, any point `x`,
+    any parity-consistent expansion with coefficients in any ℚ-algebra -/
+theorem rotate_exact_tab3 {M : Type} [Ring M] [Algebra ℚ M] (q00 q01 q02 q10 q11 q12 q20 q21 q22 x0 x1 x2 : ℚ)
+    (a : Coeffs M) (ha : ParityOK tab3 a) :
+    evalH tab3 [x0, x1, x2] (rotatecoeff tab3 (npowRow tab3 [[q00, q01, q02], [q10, q11, q12], [q20, q21, q22]]) a)
+      = evalH tab3 (applyQ [[q00, q01, q02], [q10, q11, q12], [q20, q21, q22]] [x0, x1, x2]) a :=
+  eval_rotate tab3 tab3_sem17 _ (by simp [tab3_dim]) _ (by simp [tab3_dim])
+    (by intro t ht; simp only [List.mem_cons, List.not_mem_nil, or_false] at ht
+        rcases ht with rfl | rfl | rfl <;> simp [tab3_dim]) a ha
+
+/-- the same on the live 2-D tables -/
+theorem rotate_exact_tab2 {M : Type} [Ring M] [Algebra ℚ M] (q00 q01 q10 q11 x0 x1 : ℚ)
+    (a : Coeffs M) (ha : ParityOK tab2 a) :
+    evalH tab2 [x0, x1] (rotatecoeff tab2 (npowRow tab2 [[q00, q01], [q10, q11]]) a)
+      = evalH tab2 (applyQ [[q00, q01], [q10, q11]] [x0, x1]) a :=
+  eval_rotate tab2 tab2_sem17 _ (by simp [tab2_dim]) _ (by simp [tab2_dim])
+    (by intro t ht; simp only [List.mem_cons, List.not_mem_nil, or_false] at ht
+        rcases ht with rfl | rfl <;> simp [tab2_dim]) a ha
 
 /-- a parity-consistent expansion: the term `|q|² · 1` stored as `(n,l) = (2,0)` (what `reduce` produces) -/
 example : ParityOK tab3 ([(2, 0, [(1 : ℚ)])] : Coeffs ℚ) := by
